@@ -154,7 +154,7 @@ FormAllowed(ev) ==
             \* a hint stays a hint: whatever is computed from one (&&, ||, arithmetic, ...) must not
             \* become a wrapper that a verifier accepts (indexing WITH a hint designates memory)
             /\ (ev.form # "index" /\ (ev.x.k \in {"BH", "IH"} \/ ev.y.k \in {"BH", "IH"}))
-                 => ev.rk \in {"BH", "IH"}
+                 => ev.rk \in {"BH", "IH", "V"}       \* ("V": a statement, no value is produced)
          \/ /\ ev.rk = "P" /\ ev.cmp /\ ev.form \in {"eq", "ne"}   \* comparison of a tainted pointer with nullptr
             /\ IsTaintedPtr(ev.x) /\ ev.y.t = "null"
     [] ev.cls = "enter" -> ev.verdict = "reject"
